@@ -10,9 +10,9 @@ from . import oracles
 from .families import FAMILIES  # noqa: F401  (re-exported)
 
 QUICK_GEN = 150
-THOROUGH_GEN = 1500
+THOROUGH_GEN = 800
 QUICK_TWIST = 300   # neighbourhood mutants of corpus + repo test programs (models validated on 600 + 1000)
-THOROUGH_TWIST = 3000
+THOROUGH_TWIST = 1500
 
 PROPS = {
     "C18": {
